@@ -56,6 +56,7 @@ type Runtime struct {
 	events     []Event
 	connIDs    map[uintptr]int
 	ptrIDs     map[uintptr]int
+	implicit   map[uintptr]bool // ids handed out on first sight, not yet claimed by a creation site
 	nextPtr    int
 	nextConn   int
 	srvPending map[uintptr]bool
@@ -134,8 +135,16 @@ var createdAt = map[string]string{
 func (r *Runtime) canonAt(site, key string, v interface{}) interface{} {
 	if createdAt[site] == key {
 		if p, ok := ptrOf(v); ok {
+			// A creation hook may run after the object has already been seen elsewhere (`call.cancelenq` is
+			// logged after the request was handed to the connection loop, which may have taken and written it
+			// by then): an id handed out on first sight, and not yet claimed by a creation site, is this object's.
+			if id, seen := r.ptrIDs[p]; seen && r.implicit[p] {
+				delete(r.implicit, p)
+				return id
+			}
 			r.nextPtr++
 			r.ptrIDs[p] = r.nextPtr
+			delete(r.implicit, p)
 			return r.nextPtr
 		}
 	}
@@ -152,6 +161,10 @@ func (r *Runtime) canon(key string, v interface{}) interface{} {
 			r.nextPtr++
 			id = r.nextPtr
 			r.ptrIDs[p] = id
+			if r.implicit == nil {
+				r.implicit = map[uintptr]bool{}
+			}
+			r.implicit[p] = true
 		}
 		return id
 	}
